@@ -69,13 +69,16 @@ func runC11(c *core.Ctx) {
 	c.Doc("unfold-step", 1, "send(out, seed) precedes the single Apply(seed); the result becomes the next seed")
 	c.Doc("emit-index", 1, "index from 0, +1 on every path back to the loop head; value sent is Apply(i)'s first result")
 	c.Doc("emit-paced", 1, "every iteration passes exactly once through time.Sleep(frequency) before Apply")
+	c.Doc("error-branch", 2, "the error hand-off is entered exactly when the step function reported an error (shared with C07)")
 	if s := stageOf(c, "unfold-step", "pipe", "Unfold"); s != nil {
 		unfoldStep(c, s)
 		stageLifecycleRules(c, s, lifecycleOpts{})
+		errorBranchRule(c, s, 1)
 	}
 	if s := stageOf(c, "emit-index", "pipe", "Emit"); s != nil {
 		emitRules(c, s)
 		stageLifecycleRules(c, s, lifecycleOpts{})
+		errorBranchRule(c, s, 1)
 	}
 	// "both stop and close their channels after cancel" goes through the error hand-off too: a Try function that keeps
 	// failing keeps the stage in catch; the closed-world catch implementations must give up on cancellation
@@ -182,6 +185,12 @@ func emitRules(c *core.Ctx, s *Stage) {
 	freq := paramNamedType(s.Fn, "time.Duration")
 	if len(freq) != 1 {
 		c.Undecided("emit-paced", name, s.Fn.Pos(), "frequency parameter not found")
+		return
+	}
+	// "for every buffer capacity": the value channel is made with the capacity the caller asked for (the int
+	// parameter), not with another quantity that happens to be an integer
+	if capT := chanCap(out); capT == nil || !(capT.Op == "param" && capT.Typ != nil && capT.Typ.String() == "int") {
+		c.Fail("emit-index", name, s.Fn.Pos(), "the value channel is made with capacity %s, expected the capacity parameter", short(capT))
 		return
 	}
 	// the index: the integer loop-carried value passed to Apply - a register of the loop head, or a cell (a captured
